@@ -231,6 +231,14 @@ func (ws *priorityWriteSchedulerRFC7540) OpenStream(streamID uint32, options Ope
 			panic(fmt.Sprintf("stream %d already opened", streamID))
 		}
 		curr.state = priorityNodeOpenRFC7540
+		// The node is not idle anymore, so it must not be evicted from the
+		// tree when a later idle node needs a slot in idleNodes.
+		for i, n := range ws.idleNodes {
+			if n == curr {
+				ws.idleNodes = append(ws.idleNodes[:i], ws.idleNodes[i+1:]...)
+				break
+			}
+		}
 		return
 	}
 
